@@ -68,6 +68,9 @@ partial def parseActs (cs : List Char) : List Act × List Char :=
       | _ => none
     let (as, r) := parseActs r1
     (match act with | some a => a :: as | none => as, r)
+  | 'V' :: rest =>
+    -- a view probe of the root frame (`V<tok>.<method>.<a>.<b>`): not an action of the tree, see `probesOf`
+    parseActs (rest.dropWhile (fun c => c != ',' && c != ')'))
   | 'S' :: rest =>
     let hd := rest.takeWhile (· != '(')
     let r1 := (rest.dropWhile (· != '(')).drop 1
@@ -78,6 +81,15 @@ partial def parseActs (cs : List Char) : List Act × List Char :=
       | [k, t, rv] => Act.sub (kindOf (k.toNat?.getD 0)) (t.toNat?.getD 0) body (rv == "1") :: as
       | _ => as, r)
   | _ :: rest => parseActs rest
+
+/-- the view probes at the end of a root frame, in order: (token, method) -/
+def probesOf (acts : String) : List (Nat × Method) :=
+  (acts.splitOn ",").filterMap fun t =>
+    if t.startsWith "V" then
+      match (String.ofList (t.toList.drop 1)).splitOn "." with
+      | [tk, m, a, b] => (methodOf m (a.toNat?.getD 0) (b.toNat?.getD 0) 0).map (fun mm => (tk.toNat?.getD 0, mm))
+      | _ => none
+    else none
 
 def showLogs (ls : List Log) : String :=
   if ls.isEmpty then "-" else "+".intercalate (ls.map (fun l => showLog (some l)))
@@ -108,10 +120,18 @@ def step (d : DState) (toks : List String) : DState × String :=
       | .revert => (d', "revert " ++ digest d')
       | .ok ret lg => (d', s!"ok ret={ret} log={showLog lg} " ++ digest d')
   | "tree" :: rest =>
-    let acts := (parseActs ((kv rest "acts").getD "").toList).1
-    let r := Evermint.CallTree.execList { s := d.s, logs := [] } (kvNat rest "self") acts
+    let actsS := (kv rest "acts").getD ""
+    let acts := (parseActs actsS.toList).1
+    let self := kvNat rest "self"
+    let r := Evermint.CallTree.execList { s := d.s, logs := [] } self acts
     let d' := { d with s := r.s }
-    (d', s!"ok logs={showLogs r.logs} " ++ digest d')
+    -- the probes: what the view methods answer on the final state of the transaction (`Erc20.step` of a view: `C10_views_exact`)
+    let vs := (probesOf actsS).map fun (tk, m) =>
+      match Evermint.Erc20.step r.s { token := tk, caller := self, m := m } with
+      | (_, .ok ret _) => s!"V:{ret}"
+      | (_, .revert) => "V:len0"
+    let logS := if r.logs.isEmpty && vs.isEmpty then "-" else "+".intercalate (r.logs.map (fun l => showLog (some l)) ++ vs)
+    (d', s!"ok logs={logS} " ++ digest d')
   | "etouch" :: _ =>
     -- a zero-value plain EVM message: no account of the universe changes (an account that holds coins of any
     -- denomination is not empty and survives being touched)
